@@ -168,6 +168,14 @@ theorem v2t_C15_sites (ops : FOps) (r : Row) (i : UInt32) (σ : Setter) (x : Sna
     setSiteG Guards.source r σ = .ok () ∧ snapSiteG Guards.source ops x = .ok () :=
   ⟨getHotCueAtG_eq r i, getLoopAtG_eq r i, setSiteG_ok r σ, snapSiteG_ok ops x⟩
 
+/-- **The whole public alphabet** of `database` / `track` over this model — the operations above plus
+`database::tracks`, `track_by_id`, `tracks_by_relative_path` (`*id_maybe` behind its regenerated guard) and
+the four calls without model content (`uuid`, `version_name`, `directory`, `verify`: outcome `ok`, exercised
+by the tie only) — along any script from the empty library of any 2.x version: never `ub`. -/
+theorem v2t_C15_all_calls_no_ub (ops : FOps) (s : Schema) (l : List Call) :
+    ∀ r ∈ callOutcomes ops s Db.empty l, ∀ u, r ≠ .ub u :=
+  callOutcomes_defined ops s l Db.empty rfl
+
 /-- Each guard is needed — what a regression of the C++ does to the model: with the slot test weakened
 to `index > size` (the defect repaired by `fix:` dd4c9ca) index 8 reads past the eight slots; without the
 `!sample_count || !sample_rate` test a waveform without a rate dereferences an empty optional; without the
